@@ -59,6 +59,7 @@ CONSTANTS Keys,            \* key materials (strings)
           ReadFaultKinds,  \* SUBSET {"tombCorrupt", "tombUnreadable", "stateCorrupt"}
           AllowSoleRecordLoss,   \* corrupt the state file while it holds the only record of a revocation
           AllowIntraSetCollision, \* publish two DNSKEYs with the same tag in one RRset
+          AllowContinueAfterVolatile, \* keep refreshing after a revocation that could not be recorded at all
           RelevantSignersOnly    \* state-space reduction: only signatures of keys the resolver could use
                                  \* (a signature of any other key is the same as no signature)
 
@@ -181,6 +182,7 @@ Begin(d, rf) ==
   /\ rf # "none" => nRF < MaxReadFaults
   /\ rf = "tombUnreadable" => tombFile.kind = "ok"
   /\ rf = "stateCorrupt" => (AllowSoleRecordLoss \/ ~SoleRecord)
+  /\ AllowContinueAfterVolatile \/ revVol = {}
   /\ now' = now + d
   /\ nRefresh' = nRefresh + 1
   /\ nRF' = IF rf = "none" THEN nRF ELSE nRF + 1
